@@ -56,7 +56,8 @@ structure World where
 
 /-- what a rank passes to a blocking collective put on a record variable -/
 inductive PutIn where
-  | valid (recEnd : Nat)   -- accepted non-empty request, start[0]+count[0] (resp. the strided form) = recEnd
+  | valid (recEnd : Nat)   -- accepted non-empty request, start[0]+count[0] (resp. the strided form) = recEnd; the status may be
+                           -- NC_NOERR or NC_ERANGE (non-fatal: data written, `status == NC_NOERR || status == NC_ERANGE` in every tail)
   | zero                   -- accepted request that selects nothing
   | argErr                 -- non-fatal error found by the dispatcher: NC_REQ_ZERO path
   | drvErr                 -- error found in the driver: zero-length participation, varp known
